@@ -53,6 +53,12 @@ def swapcase_variant(s):
 
 class C05Machine(Machine):
     PROP = PROP
+    EXPECTED_PROBES = [
+        "reject_multi", "reject_nomerge", "reject_invalid", "merge_case_insensitive",
+        "merge_adds_uri_synonym_only", "merge_keeps_pattern", "merge_into_start_built", "same_object_twice",
+        "empty_prefix_token", "empty_uri_prefix_token", "start_from_chain", "start_from_subconverter",
+        "retry_rejected_now_accepted", "retry_rejected_again_rejected", "other_side_of_rejected_appended",
+    ]
 
     @classmethod
     def draw_config(cls, rng, tier):
@@ -86,6 +92,7 @@ class C05Machine(Machine):
         self.last_record_dump = None
         self.n_merge_new = 0
         self.n_reject = 0
+        self.rejected = []        # earlier rejected submissions (op dicts), for the retry relations
         self.started = False
 
     # ----------------------------------------------------------- generation
@@ -95,6 +102,14 @@ class C05Machine(Machine):
             return self._gen_start(rng)
         kind = "add_prefix" if rng.random() < cfg["p_add_prefix"] else "add_record"
         rel = self._pick_relation(rng)
+        if rel == "retry_rejected":
+            # the reject-then-retry idiom: the very same submission again, usually now with merge=True
+            prev = rng.choice(self.rejected)
+            return {
+                "op": prev["op"], "relation": rel, "record": copy.deepcopy(prev["record"]),
+                "case_sensitive": prev["case_sensitive"] if rng.random() < 0.85 else not prev["case_sensitive"],
+                "merge": True if rng.random() < 0.75 else prev["merge"],
+            }
         rec = self._gen_record(rng, rel, kind)
         op = {
             "op": kind,
@@ -144,6 +159,10 @@ class C05Machine(Machine):
             return "invalid"
         if r < 0.08:
             return "same_object"
+        if self.rejected and r < 0.20:
+            return "retry_rejected"
+        if self.rejected and r < 0.32:
+            return "other_side_of_rejected"
         return rng.choice(RELATIONS[1:9])
 
     def _fresh_tokens(self, pool, used):
@@ -199,6 +218,15 @@ class C05Machine(Machine):
                 rec["prefix_synonyms"] = sorted(r1.prefix_synonyms)
                 rec["uri_prefix_synonyms"] = sorted(r1.uri_prefix_synonyms)
                 rec["pattern"] = r1.pattern
+        elif rel == "other_side_of_rejected":
+            # a new record that takes the token(s) of an earlier rejected submission which did NOT collide
+            prev = rng.choice(self.rejected)["record"]
+            free_c = [t for t in [prev["prefix"], *prev["prefix_synonyms"]] if t not in used_c]
+            free_u = [t for t in [prev["uri_prefix"], *prev["uri_prefix_synonyms"]] if t not in used_u]
+            rec["prefix"] = rng.choice(free_c) if free_c and (not free_u or rng.random() < 0.5) else take(fresh_c, cfg["curie_pool"])
+            rec["uri_prefix"] = rng.choice(free_u) if free_u and rec["prefix"] not in free_c else take(fresh_u, cfg["uri_pool"])
+            if rec["prefix"] in used_c and rec["uri_prefix"] in used_u:
+                rec["prefix"] = take(fresh_c, cfg["curie_pool"])
         elif rel == "syn_vs_canon":
             # the submission's *synonym* hits an existing canonical value (or synonym)
             rec["prefix"] = take(fresh_c, cfg["curie_pool"])
@@ -224,6 +252,44 @@ class C05Machine(Machine):
             rec["prefix_synonyms"] = [s for s in dict.fromkeys(rec["prefix_synonyms"]) if s != rec["prefix"]]
             rec["uri_prefix_synonyms"] = [s for s in dict.fromkeys(rec["uri_prefix_synonyms"]) if s != rec["uri_prefix"]]
         return rec
+
+    @staticmethod
+    def simplify_op(op):
+        if op["op"] == "start":
+            for key in ("records", "records2"):
+                for i in range(len(op.get(key, []))):
+                    c = copy.deepcopy(op)
+                    del c[key][i]
+                    yield c
+                for i, r in enumerate(op.get(key, [])):
+                    for k2 in ("uri_prefix_synonyms", "prefix_synonyms"):
+                        for j in range(len(r[k2])):
+                            c = copy.deepcopy(op)
+                            del c[key][i][k2][j]
+                            yield c
+                    if r.get("pattern"):
+                        c = copy.deepcopy(op)
+                        c[key][i]["pattern"] = None
+                        yield c
+            if op["kind"] not in ("ctor", "empty"):
+                yield dict(copy.deepcopy(op), kind="ctor")
+            if op.get("delimiter") != ":":
+                yield dict(copy.deepcopy(op), delimiter=":")
+        if op["op"] in ("add_record", "add_prefix"):
+            r = op["record"]
+            for k2 in ("uri_prefix_synonyms", "prefix_synonyms"):
+                for j in range(len(r[k2])):
+                    c = copy.deepcopy(op)
+                    del c["record"][k2][j]
+                    yield c
+            if r.get("pattern"):
+                c = copy.deepcopy(op)
+                c["record"]["pattern"] = None
+                yield c
+            if not op["case_sensitive"]:
+                yield dict(copy.deepcopy(op), case_sensitive=True)
+            if op["op"] == "add_record" and not op.get("same_object") and not r.get("pattern"):
+                yield dict(copy.deepcopy(op), op="add_prefix")
 
     # ------------------------------------------------------------ execution
     def _snapshot(self):
@@ -335,6 +401,11 @@ class C05Machine(Machine):
                 raise Violation(PROP, "accept_reject_mismatch", site,
                                 {"real": "rejected:" + type(err).__name__, "model": outcome, "op": op})
             self.n_reject += 1
+            if outcome != "reject_invalid" and not op.get("same_object"):
+                self.rejected.append({"op": op["op"], "record": copy.deepcopy(op["record"]),
+                                      "case_sensitive": cs, "merge": merge})
+            if op.get("relation") == "retry_rejected":
+                self.probe("retry_rejected_again_rejected")
             self.fault("rejected_call")
             self.probe(outcome)
             result = "rejected"
@@ -354,6 +425,10 @@ class C05Machine(Machine):
                     self.probe("merge_keeps_pattern")
                 if self.config["start_kind"] not in ("empty",):
                     self.probe("merge_into_start_built")
+            if op.get("relation") == "retry_rejected":
+                self.probe("retry_rejected_now_accepted")
+            if op.get("relation") == "other_side_of_rejected" and outcome == "append":
+                self.probe("other_side_of_rejected_appended")
             if "" in mrec.all_prefixes():
                 self.probe("empty_prefix_token")
             if "" in mrec.all_uri_prefixes():
